@@ -207,7 +207,7 @@ fn direct_table(ns: Vec<Node>) -> RoutingTable {
 #[kani::stub(crate::common::id::id_prefix_ipv4, crate::verif_env::ufp::prefix)]
 #[kani::unwind(21)]
 fn c12_o3_table_add_step() {
-    crate::verif_env::ufp::arm(kani::any());
+    crate::verif_env::ufp::arm(kani::env());
     clock::set(0);
     let n1 = any_public_node_160();
     let n2 = any_public_node_160();
@@ -285,7 +285,7 @@ fn c12_o3_table_add_step() {
 #[kani::stub(crate::common::id::id_prefix_ipv4, crate::verif_env::ufp::prefix)]
 #[kani::unwind(21)]
 fn c14_o1_refresh_on_contact() {
-    crate::verif_env::ufp::arm(kani::any());
+    crate::verif_env::ufp::arm(kani::env());
     let t0: u64 = kani::any();
     let dt: u64 = kani::any();
     kani::assume(t0 < (1 << 20) && dt < (1 << 20));
@@ -340,7 +340,7 @@ fn c14_o1_refresh_on_contact() {
 #[kani::stub(crate::common::id::id_prefix_ipv4, crate::verif_env::ufp::prefix)]
 #[kani::unwind(21)]
 fn c12_o4_remove_and_rekey() {
-    crate::verif_env::ufp::arm(kani::any());
+    crate::verif_env::ufp::arm(kani::env());
     clock::set(0);
     let n1 = any_private_node_160();
     let n2 = any_private_node_160();
@@ -414,7 +414,7 @@ fn c12_o4_remove_and_rekey() {
 #[kani::stub(crate::common::id::id_prefix_ipv4, crate::verif_env::ufp::prefix)]
 #[kani::unwind(21)]
 fn c11_o3_table_closest() {
-    crate::verif_env::ufp::arm(kani::any());
+    crate::verif_env::ufp::arm(kani::env());
     clock::set(0);
     let n1 = any_public_node_160();
     let n2 = any_public_node_160();
